@@ -603,6 +603,65 @@ def gen_cases(n, rng, prefix="g"):
     return out
 
 
+def incompressible_cases(rng):
+    """modules whose raw stream is incompressible over long stretches: random strings and random
+    u64/u8 tables of sizes around the longest literal run of mir-reduce.h (2047) and around 2^16 / the
+    2^18 buffer, several per module at different stream offsets, so that the boundary paths of the
+    compression layer are driven through MIR_write / MIR_read"""
+    C = T.code
+    out = []
+
+    def rnd(n):
+        b = bytearray()
+        while len(b) < n:
+            b += rng.next().to_bytes(8, "little")
+        return bytes(b[:n])
+
+    def str_insn(bs):
+        return "insn %d 2 r:%s s:%s" % (C["MOV"], x(b"r"), x(bs))
+
+    def u64_data(name, n):
+        return "data %s 7 %d %s" % (x(name), n, " ".join(str(rng.next() | (1 << 63)) for _ in range(n)))
+
+    def u8_data(name, n):
+        return "data %s 1 %d %s" % (x(name), n, " ".join(str(b) for b in rnd(n)))
+
+    def module(name, pad, strs, tables):
+        L = ["module " + x(name)]
+        for j in range(pad):                       # shifts everything that follows in the stream
+            L.append("import " + x(b"p%d_%d" % (j, rng.below(1000))))
+        for k, (kind, n) in enumerate(tables):
+            L.append(u64_data(b"t%d" % k, n) if kind == "u64" else u8_data(b"b%d" % k, n))
+        L += ["func %s 0 0 0" % x(b"f"), "local 6 %s" % x(b"r")]
+        L += [str_insn(rnd(n)) for n in strs]
+        L += ["insn %d 0" % C["RET"], "endfunc", "endmodule"]
+        return L
+
+    # literal-run boundary: a run is flushed at exactly 2047 bytes
+    out.append(Case("incompr-u64-600", module(b"m", 0, [], [("u64", 600)]), kind="incompr"))
+    out.append(Case("incompr-u64-mix", module(b"m", 3, [], [("u64", 227), ("u64", 228), ("u64", 455), ("u64", 1000)]),
+                    kind="incompr"))
+    for base in (2047, 4094, 6141):
+        sizes = [base + d for d in range(-4, 5)]
+        out.append(Case("incompr-str-%d" % base, module(b"s", rng.below(7), sizes, []), kind="incompr"))
+    out.append(Case("incompr-str-u8", module(b"s", 1, [2047, 100, 2046, 2048], [("u8", 2047), ("u8", 5000)]),
+                    kind="incompr"))
+    # 2^16 and several stretches in one module at different offsets
+    for i, pad in enumerate((0, 5, 40)):
+        out.append(Case("incompr-64k-%d" % i,
+                        module(b"k", pad, [65535 + i, 2047, 65536 - i], [("u64", 600 + 17 * i), ("u8", 65536)]),
+                        kind="incompr"))
+    # the 2^18 buffer of the compressor: incompressible data across the buffer switch
+    out.append(Case("incompr-buf", module(b"b", 2, [262144 - 3, 2047, 262144 + 5], [("u64", 30000)]), kind="incompr"))
+    if THOROUGH:
+        for i in range(6):
+            strs = [rng.choice([2047, 2046, 2048, 4094, 10000, 65536, 100000]) for _ in range(1 + rng.below(4))]
+            tabs = [(rng.choice(["u64", "u8"]), rng.choice([100, 227, 228, 600, 2047, 9000])) for _ in range(rng.below(4))]
+            out.append(Case("incompr-rnd-%d" % i, module(b"r", rng.below(60), strs, tabs), kind="incompr"))
+        out.append(Case("incompr-buf2", module(b"b", 0, [524288, 262143], [("u64", 60000)]), kind="incompr"))
+    return out
+
+
 def big_cases(rng):
     """sizes beyond two compression buffers (2 * 2^18 raw bytes); few distinct strings, many tokens"""
     g = c11_gen.Gen(rng, T)
@@ -853,8 +912,8 @@ def report(case, what, sig, det):
 def run_all(cases, exe=None, label="main"):
     if not cases:
         return
-    small = [c for c in cases if c.kind != "big"]
-    big = [c for c in cases if c.kind == "big"]
+    small = [c for c in cases if c.kind not in ("big", "incompr")]
+    big = [c for c in cases if c.kind in ("big", "incompr")]
     nchunk = max(1, min(16, len(small) // 4))
     chunks = [small[i::nchunk] for i in range(nchunk)] + [[c] for c in big]
     chunks = [c for c in chunks if c]
@@ -902,7 +961,7 @@ try:
                     c.kind = "corpus"
                     cases.append(c)
         stats["corpus_replayed"] = len(cases)
-        cases += defect_probes() + unit_probes()
+        cases += defect_probes() + unit_probes() + incompressible_cases(ck.rng)
         cases += gen_cases(900 if THOROUGH else 320, ck.rng)
         cases += text_corpus(ck.rng)
         if THOROUGH:
@@ -942,7 +1001,7 @@ ck.cov["distinct_nontrivial"] = stats["nontrivial"]
 ck.cov["rule"] = ("case = set of modules built through the MIR API from a random description (generator seeded by "
                   "VERIF_SEED; vocabulary: every item kind, every insn_descs row with operands chosen by its op_modes, "
                   "calls/switch/ret/va_*/overflow branches, all memory shapes with aliases, non-finite floats, strings with "
-                  "NULs), plus mir-tests/*.mir and c2m -S output of sampled c-tests, plus fixed unit/defect probes; "
+                  "NULs), plus modules with incompressible stretches (random strings / u64 / u8 tables around 2047, 2^16, 2^18 bytes), plus mir-tests/*.mir and c2m -S output of sampled c-tests, plus fixed unit/defect probes; "
                   "non-trivial = builds, has more than an empty module and its raw stream is distinct from all others")
 ck.cov["distribution"] = {"kinds": stats["kinds"], "item_lines": stats["item_kinds"],
                           "distinct_opcodes": len(stats["opcodes"]), "raw_bytes_total": stats["bytes_total"],
